@@ -18,7 +18,7 @@ from sim import refs
 from sim import samplers
 from sim.mpi_world import SimWorld
 from checks.c18 import gen_weights, WEIGHT_FAMILIES, ref_quantiles, \
-    DERIVED_POOL
+    ref_quantile_envelope, DERIVED_POOL
 
 _warm = False
 
@@ -114,6 +114,14 @@ def generate(run_seed, tier):
             # to about 1e-6 (and are still distinct)
             u0 = [d.uniform(0.1, 0.9) for _ in fit]
             su = [[u + 1e-6 * d.uniform(-1, 1) for u in u0] for _ in range(n)]
+        elif d.random() < 0.15 and n >= 3 and len(fit) >= 2:
+            # one coordinate takes only a few distinct values (a parameter
+            # the data do not constrain, a sampler that repeats points):
+            # equal sample values with different weights
+            j = d.randrange(len(fit))
+            levels = [d.uniform(0.05, 0.95) for _ in range(d.choice([2, 2, 3]))]
+            for row in su:
+                row[j] = d.choice(levels)
         m2 = [d.uniform(10, 500) for _ in range(n)]
         modes.append({'family': fam, 'weights': w, 'samples_u': su,
                       'm2logl': m2})
@@ -471,15 +479,32 @@ def execute(case, keep_text=False, after_fit=None):
                     if tied_x:
                         # equal sample values (a real sampler may return
                         # them): the quantile rule then depends on the order
-                        # of the tied rows
+                        # of the tied rows - every order gives a value
+                        # inside the envelope
                         out.bump('probes', 'tied_sample_values')
+                        lo, hi = ref_quantile_envelope(
+                            col, W_.tolist(), [0.16, 0.5, 0.84])
+                        v50 = float(ent['value'])
+                        tol = 1e-9 * max(abs(v50), abs(hi[2] - lo[0]), 1e-300)
+                        for j, (nm, gv) in enumerate((
+                                ('q16', v50 - float(ent['sigma_m'])),
+                                ('value', v50),
+                                ('q84', v50 + float(ent['sigma_p'])))):
+                            if not lo[j] - tol <= gv <= hi[j] + tol:
+                                viol('quantile', nm + ':tied-values',
+                                     '%s: %r; the weighted quantile rule '
+                                     'gives a value in [%r, %r] for every '
+                                     'order of the tied samples'
+                                     % (fn, gv, lo[j], hi[j]))
                     for nm, want in (('value', q50), ('sigma_m', q50 - q16),
                                      ('sigma_p', q84 - q50)):
                         if not tied_x and \
                                 abs(float(ent[nm]) - want) > 1e-9 * scale:
                             viol('quantile', nm, '%s: %r, weighted quantile rule '
                                  'gives %r' % (fn, float(ent[nm]), want))
-                    med_vec.append(q50)
+                    # (with tied values the median is whichever member of the
+                    # envelope - verified above - the code reported)
+                    med_vec.append(float(ent['value']) if tied_x else q50)
                     wmean = float(np.sum(S_[:, i] * W_) / np.sum(W_))
                     if kind in ('nestle', 'nestle_real'):
                         jm = [j for j in range(len(W_)) if W_[j] == W_.max()]
@@ -614,6 +639,24 @@ def execute(case, keep_text=False, after_fit=None):
                             # undefined for part of the posterior: the quantile rule
                             # says nothing about its summaries
                             out.bump('probes', 'derived_trace_with_nan')
+                            continue
+                        if 1 < len(set(rt.tolist())) < rt.size:
+                            out.bump('probes', 'tied_derived_values')
+                            lo, hi = ref_quantile_envelope(
+                                list(rt), W_.tolist(), [0.16, 0.5, 0.84])
+                            v50 = float(ent['value'])
+                            tol = 1e-9 * max(abs(v50), abs(hi[2] - lo[0]),
+                                             1e-300)
+                            for j, (nm, gv) in enumerate((
+                                    ('q16', v50 - float(ent['sigma_m'])),
+                                    ('value', v50),
+                                    ('q84', v50 + float(ent['sigma_p'])))):
+                                if not lo[j] - tol <= gv <= hi[j] + tol:
+                                    viol('derived', nm + ':tied-values',
+                                         '%s: %r; the quantile rule gives a '
+                                         'value in [%r, %r] for every order '
+                                         'of the tied samples'
+                                         % (d, gv, lo[j], hi[j]))
                             continue
                         q16, q50, q84 = ref_quantiles(list(rt), W_.tolist(),
                                                       [0.16, 0.5, 0.84])
